@@ -246,9 +246,20 @@ pub fn run(rep: &mut Report, thorough: bool) {
             }
         }
         // natural: linker data unreadable (direct auxv names an unmapped program header table)
-        for phdr in [sc.holes.first().copied().unwrap_or(0x1000), 1u64, 0x7fff_ffff_f000] {
+        // ... or a readable table without any PT_DYNAMIC entry (as a static executable has): the
+        // headers are the bytes of a pattern region, a single header, or the real table cut short
+        let mut tables: Vec<(u64, u64)> = vec![(3, sc.holes.first().copied().unwrap_or(0x1000)), (3, 1), (3, 0x7fff_ffff_f000)];
+        if let Some((pa, _)) = sc.pattern_regions.first() {
+            tables.push((1, *pa));
+            tables.push((3, *pa + 8 * rng.below(16)));
+            tables.push((40, *pa));
+        }
+        if t.manifest.at_phdr != 0 {
+            tables.push((1, t.manifest.at_phdr)); // PT_PHDR only: the dynamic segment comes later
+        }
+        for (phnum, phdr) in tables {
             let mut o = base_opts.clone();
-            o.direct_auxv = Some([3, phdr, 0, 0]);
+            o.direct_auxv = Some([phnum, phdr, 0, 0]);
             match dump_ok_t(t, &o) {
                 Ok((img, im)) => {
                     rep.case(fnv(format!("dso{phdr}").as_bytes()), true);
